@@ -9,3 +9,5 @@ import Dtr.Props.C05
 #print axioms Dtr.C05_get_row_pops
 #print axioms Dtr.C05_closed_form
 #print axioms Dtr.C05_expansion_survives_errors
+#print axioms Dtr.C05_expanded_x_expected_x
+#print axioms Dtr.C05_expansion_remembers_x
